@@ -9,7 +9,15 @@ MT=${MT_DIR:-/tmp/mt}
 if [ ! -d "$MT/.git" ] && [ ! -f "$MT/.git" ]; then git -C /repo worktree add -q --detach "$MT" HEAD || exit 2; fi
 git -C "$MT" checkout -q --detach $(git -C /repo rev-parse HEAD) 2>/dev/null
 git -C "$MT" checkout -- . ; git -C "$MT" clean -qfd -e target
-if ! git -C "$MT" apply "$patch"; then echo "MUTEST patch does not apply: $patch"; exit 2; fi
+if ! git -C "$MT" apply "$patch" 2>/dev/null; then
+  # later fix: commits may have moved the context: fall back to the /repo commit recorded in meta.json
+  base=$(jq -r '.applies_to_repo_commit // empty' "$(dirname "$patch")/meta.json" 2>/dev/null)
+  if [ -n "$base" ] && git -C "$MT" checkout -q --detach "$base" && git -C "$MT" apply "$patch"; then
+    echo "MUTEST note: applied at /repo commit $base (does not apply to HEAD)"
+  else
+    echo "MUTEST patch does not apply: $patch"; exit 2
+  fi
+fi
 [ "$props" = "all" ] && props=C01,C02,C03,C04,C05,C06,C07,C08,C09,C10,C11,C12,C13,C16,C17,C18
 export VERIF_DIR=${MT}-verif; mkdir -p $VERIF_DIR; cp /verif/KNOWN_FINDINGS $VERIF_DIR/; export VERIF_KNOWN=$VERIF_DIR/KNOWN_FINDINGS
 caught=""
